@@ -896,7 +896,11 @@ class Categorical(Dimension):
         # of type float, hence the required cast back to int.
         inv_transform = super(Categorical, self).inverse_transform(Xt)
         if isinstance(inv_transform, list):
-            inv_transform = np.array(inv_transform)
+            if len({type(v) for v in inv_transform}) > 1:
+                # categories of different types must not be converted to a common type
+                inv_transform = np.array(inv_transform, dtype=object)
+            else:
+                inv_transform = np.array(inv_transform)
         return inv_transform
 
     def rvs(self, n_samples=None, random_state=None):
